@@ -240,7 +240,7 @@ pub fn search_c18(r: &mut Report, tier: &str) {
 /// clock is the add clock plus that dot; the remove context of a member is its witness clock
 pub fn search_c07(r: &mut Report, tier: &str) {
     let depth = if tier == "thorough" { 5 } else { 4 };
-    r.target = "ReadCtx::derive_add_ctx / derive_rm_ctx on Orswot reads (C07)".into();
+    r.target = "ReadCtx::derive_add_ctx / derive_rm_ctx / split on Orswot reads (C07)".into();
     r.bound = format!("all Orswot states reached by <= {} generator steps x actors {{1,2,3}} x members {{0,1,2}}", depth);
     for (o, d) in &states(depth) {
         let (cl, ent) = state(o);
@@ -258,6 +258,12 @@ pub fn search_c07(r: &mut Report, tier: &str) {
                 let rm = o.contains(&m).derive_rm_ctx();
                 let want_rm = ent.get(&m).cloned().unwrap_or_default();
                 r.case("orswot.derive_rm_ctx", rm.clock.dots == want_rm, &|| format!("[{}] contains({}).derive_rm_ctx()", d, m), &|| format!("got {:?} want {:?}", rm.clock, want_rm));
+                // split() hands the same two clocks on, together with the value
+                let c0 = o.contains(&m);
+                let (v, rest) = o.contains(&m).split();
+                let ok3 = v == c0.val && rest.add_clock == c0.add_clock && rest.rm_clock == c0.rm_clock
+                    && o.contains(&m).split().1.derive_rm_ctx().clock.dots == want_rm && o.contains(&m).split().1.derive_add_ctx(actor).clock.dots == want_clock;
+                r.case("readctx.split_keeps_both_clocks", ok3, &|| format!("[{}] contains({}).split()", d, m), &|| format!("split gives add {:?} rm {:?}; read had add {:?} rm {:?}", rest.add_clock, rest.rm_clock, c0.add_clock, c0.rm_clock));
             }
             if r.failures > 0 { return; }
         }
